@@ -190,6 +190,9 @@ func (l *Lexer) Next(p []byte) (TokenType, []byte, error) {
 				continue
 			}
 		case OpAttachment:
+			if recordLen > math.MaxInt64 {
+				return TokenError, nil, fmt.Errorf("attachment record length %d out of range", recordLen)
+			}
 			limitReader := &io.LimitedReader{
 				R: l.reader,
 				N: int64(recordLen),
